@@ -235,6 +235,15 @@ APPEND = {
     ("C03_explored_run_goodAt", "explored_run_goodAt", "for a program whose exploration passes the checker: the invariant in every reachable state of every iteration"),
     ("C03_p_sl_checked", "p_sl_checked", "computed: store/load race, 25 iterations, 28 replayed loads, all recorded entries agree"),
     ("C03_p_mp_checked", "p_mp_checked", "computed: message passing with release store, RMW and relaxed loads, 72 iterations, 181 replayed loads"),
+ ]), ("LV.AtomicFacts LV.AtomicCoherence LV.AtomicCoRR LV.AtomicClosure LV.AtomicBridge LV.NotifyFacts LV.ClockFacts LV.SyncMono LV.ExecFacts LV.AtomicRun LV.AtomicRun2 LV.AtomicRun3 LV.AtomicRun4", "NON-VACUITY (AtomicRun4.v): a generic checker over whole explorations with a soundness theorem, the ring hypothesis established by it, and for a concrete two-thread program the run theorems with NO remaining hypothesis -- in all 25 iterations, the replaying ones included", [
+    ("C03_explore_chk_sound", "explore_chk_sound", "if the checker answers (true, true), the checked predicate holds at every micro-operation of every state reachable by steps in the iteration of every explored path"),
+    ("C03_ring_checked_RunOK3", "ring_checked_RunOK3", "ring room established by the checker"),
+    ("C03_p_sl_RunOK2", "p_sl_RunOK2", "the hypotheses of run_goodAt2 hold on every explored path of the program (two threads, each a relaxed store and a relaxed load of one atomic)"),
+    ("C03_p_sl_all_good", "p_sl_all_good", "NO HYPOTHESIS LEFT: in every state reachable in every iteration of the exploration of that program the invariant holds"),
+    ("C03_p_sl_atomicity", "p_sl_atomicity", "RMW atomicity likewise"),
+    ("C03_p_sl_coherence", "p_sl_coherence", "CoRR / CoWR / RMW coherence between any two states of any iteration"),
+    ("C03_p_sl_check_all_good", "p_sl_check_all_good", "the same for the begin path of every record Builder::check returns"),
+    ("C03_side_instance", "side_instance", "one concrete reachable access at which every clause of SideOK holds non-trivially: a candidate list of length >= 2, the replayed index in it, three stores in the ring"),
  ])],
  "C02": [("LV.AtomicFacts LV.AtomicCoherence", "Nothing allowed is pruned without a reason: the candidate set is never empty and contains every mo-maximal store (AtomicCoherence.v)", [
     ("C02_mo_maximal_is_candidate", "mo_maximal_is_candidate", "a live store with no mo-later live store is always a candidate"),
